@@ -955,6 +955,8 @@ Proof.
     inv H. apply same_core_rel; simpl; auto.
   - (* SetParams *)
     des H. inv H. apply same_core_rel; simpl; auto.
+  - (* Migrate *)
+    des H. inv H. apply same_core_rel; simpl; auto.
 Qed.
 
 (* ---------- the invariant is inductive ---------- *)
@@ -1119,6 +1121,7 @@ Proof.
     apply KEEP; [eapply exec_result_relation; eauto | intros (a & b & c & d & t & E9 & _); discriminate|].
     inversion TX as [? P _ _ | | | |]; subst; try nosend. auto.
   - inv H. apply KEEP; auto. intros (a & b & c & d & t & E9 & _); discriminate.
+  - des H. inv H. apply KEEP; auto. intros (a & b & c & d & t & E9 & _); discriminate.
   - des H. inv H. apply KEEP; auto. intros (a & b & c & d & t & E9 & _); discriminate.
 Qed.
 
